@@ -336,6 +336,114 @@ fn replay_id(out: &mut Out, c: &Value, class: &str) {
     emit_id(out, &dh, &els, c["merge"].as_bool().unwrap_or(true), c["mode"].as_str().unwrap_or("heading"), class);
 }
 
+
+// ------------------------------------------------------------------ sub-channel agg (reported through the id channel)
+/// Chunk-metadata aggregates chosen by max/min (dominant_font, dominant_font_size, table dimensions,
+/// min_confidence) exercised WITH TIES: elements carry font name / size / confidence, several fonts
+/// (sizes, tables) have exactly equal weight inside one chunk.  No tie-break is documented, so the only
+/// demand is run-to-run identity of the full serialised chunks (Debug rendering, metadata included):
+/// REPS fresh constructions in this process plus one in a child process.
+const AGG_REPS: usize = 24;
+/// element: [kind, page, text, font|null, size_units|null, conf_percent]; kind 0 title 1 para 2 list 5 table (text = "r x c")
+fn agg_element(v: &Value) -> Element {
+    let kind = v[0].as_u64().unwrap_or(1);
+    let text = v[2].as_str().unwrap_or("").to_string();
+    let meta = ElementMetadata {
+        page: v[1].as_u64().unwrap_or(0) as u32,
+        font_name: v[3].as_str().map(|x| x.to_string()),
+        font_size: v[4].as_u64().map(|k| k as f64 / 8.0),
+        confidence: v[5].as_u64().unwrap_or(100) as f64 / 100.0,
+        parent_heading: v[6].as_str().map(|x| x.to_string()),
+        ..Default::default()
+    };
+    match kind {
+        0 => Element::Title(ElementData { text, metadata: meta }),
+        2 => Element::ListItem(ElementData { text, metadata: meta }),
+        5 => {
+            let mut it = text.split('x').map(|n| n.trim().parse::<usize>().unwrap_or(1));
+            let (r, c) = (it.next().unwrap_or(1), it.next().unwrap_or(1));
+            let rows = (0..r).map(|i| (0..c).map(|j| format!("c{i}_{j}")).collect()).collect();
+            Element::Table(oxidize_pdf::pipeline::TableElementData::new(rows, meta))
+        }
+        _ => Element::Paragraph(ElementData { text, metadata: meta }),
+    }
+}
+fn agg_serialise(c: &Value) -> String {
+    let elements: Vec<Element> = c["els"].as_array().unwrap().iter().map(agg_element).collect();
+    let mode = mode_of(c["mode"].as_str().unwrap_or("heading"));
+    let cfg = HybridChunkConfig { max_tokens: 4000, context_mode: mode, ..Default::default() };
+    let chunker = HybridChunker::new(cfg);
+    let hcs = if c["graph"].as_bool().unwrap_or(false) {
+        let g = oxidize_pdf::pipeline::ElementGraph::build(&elements);
+        chunker.chunk_with_graph(&elements, &g)
+    } else {
+        chunker.chunk(&elements)
+    };
+    let src = DocumentSource::with_file(Some("f.pdf".into()), Some("dochash01".into()));
+    let mut chunks: Vec<RagChunk> = hcs.iter().enumerate().map(|(i, hc)| RagChunk::from_hybrid_chunk_with_source_and_mode(i, hc, &src, mode)).collect();
+    oxidize_pdf::pipeline::rag::verif_link_chunks(&mut chunks);
+    format!("{:?}", chunks)
+}
+fn emit_agg(ctx: &Ctx, out: &mut Out, c: &Value, k: usize) {
+    let c2 = c.clone();
+    let runs = catch(std::panic::AssertUnwindSafe(move || (0..AGG_REPS).map(|_| agg_serialise(&c2)).collect::<Vec<String>>()));
+    let runs = match runs {
+        Ok(r) => r,
+        Err(m) => {
+            out.impl_failures.push(json!({"what":"panic while building rag chunks (agg)","msg":m,"case":c}));
+            return;
+        }
+    };
+    out.count("agg_tie_case");
+    if let Some(i) = runs.iter().position(|s| s != &runs[0]) {
+        out.impl_failures.push(json!({"what": format!("serialised chunks (metadata included) differ between repeated runs on the same elements: run 0 vs run {i} of {AGG_REPS}"),
+            "case": c, "run0": runs[0].chars().take(600).collect::<String>(), "other": runs[i].chars().take(600).collect::<String>()}));
+        return;
+    }
+    let p = ctx.out.join(format!("aggchild_{k}.json"));
+    if std::fs::write(&p, serde_json::to_string(c).unwrap()).is_ok() {
+        if let Ok(exe) = std::env::current_exe() {
+            if let Ok(o) = std::process::Command::new(exe).args(["c15", "--child-agg", p.to_str().unwrap()]).output() {
+                if String::from_utf8_lossy(&o.stdout) != runs[0] {
+                    out.impl_failures.push(json!({"what":"serialised chunks (metadata included) differ between this process and a second process","case":c}));
+                }
+            }
+        }
+        let _ = std::fs::remove_file(&p);
+    }
+}
+fn gen_agg(ctx: &Ctx, r: &mut Rng, out: &mut Out, n: usize) {
+    const FONTS: [&str; 4] = ["Helvetica", "Times-Roman", "Courier", "Helvetica-Bold"];
+    for k in 0..n {
+        let nf = r.range(2, 3) as usize; // fonts (or sizes, or tables) tied
+        let wlen = r.range(3, 9) as usize; // characters per element
+        let per = r.range(1, 2) as usize; // elements per font
+        let what = k % 4; // 0 fonts, 1 sizes, 2 fonts+sizes, 3 tables (graph section chunk)
+        let mut els: Vec<Value> = vec![];
+        let head = "Sec";
+        if what == 3 || r.chance(1, 2) {
+            els.push(json!([0, 0, head, "Helvetica", 144, 100, head]));
+        }
+        let mut order: Vec<usize> = (0..nf * per).map(|i| i % nf).collect();
+        for i in (1..order.len()).rev() {
+            order.swap(i, r.below(i as u64 + 1) as usize);
+        }
+        for (j, fi) in order.iter().enumerate() {
+            let text: String = (0..wlen).map(|q| (b'a' + ((j * 7 + q) % 26) as u8) as char).collect();
+            let parent = if els.is_empty() { Value::Null } else { json!(head) };
+            let conf = *r.pick(&[100u64, 90, 90, 50]);
+            match what {
+                0 => els.push(json!([1 + (j % 2), j / 3, text, FONTS[*fi], 80, conf, parent])),
+                1 => els.push(json!([1, j / 3, text, "Helvetica", 80 + 8 * *fi as u64, conf, parent])),
+                2 => els.push(json!([1 + (j % 2), j / 3, text, FONTS[*fi], 80 + 8 * ((*fi as u64 + 1) % nf as u64), conf, parent])),
+                _ => els.push(json!([5, 0, format!("3x{}", 2 + *fi), "Helvetica", 80, conf, parent])),
+            }
+        }
+        let c = json!({"ch":"agg","els":els,"graph": what == 3 || r.chance(1, 4),"mode": *r.pick(&["none", "heading", "labeled"])});
+        emit_agg(ctx, out, &c, k);
+    }
+}
+
 // ------------------------------------------------------------------ channel e2e
 #[path = "c15_e2e.rs"]
 mod e2e;
@@ -343,6 +451,11 @@ mod e2e;
 pub fn run(ctx: &Ctx) {
     if let Some(p) = ctx.opt("--child") {
         e2e::child(&p);
+        return;
+    }
+    if let Some(p) = ctx.opt("--child-agg") {
+        let v: Value = serde_json::from_str(&std::fs::read_to_string(p).expect("child input")).expect("json");
+        print!("{}", agg_serialise(&v));
         return;
     }
     if ctx.flag("--scratch") {
@@ -419,7 +532,16 @@ pub fn run(ctx: &Ctx) {
             for c in cor("id") {
                 replay_id(&mut out, &c, "corpus");
             }
-            gen_id(&mut r, &mut out, 240 * k)
+            gen_id(&mut r, &mut out, 240 * k);
+            for (i, c) in cor("agg").iter().enumerate() {
+                emit_agg(ctx, &mut out, c, 100000 + i);
+            }
+            gen_agg(ctx, &mut r, &mut out, 80 * k as usize)
+        }
+    }
+    if let Some(cs) = sel("agg") {
+        for (i, c) in cs.iter().enumerate() {
+            emit_agg(ctx, &mut out, c, i);
         }
     }
     out.finish("id");
@@ -466,9 +588,16 @@ pub(crate) fn author(spec: &Value) -> Result<Vec<u8>, String> {
                 page.text().set_font(Font::Helvetica, size).at(60.0, y).write(b["t"].as_str().unwrap()).map_err(|e| format!("{e:?}"))?;
                 y -= 14.0;
             } else {
+                let font = match b["f"].as_str().unwrap_or("Helvetica") {
+                    "Times-Roman" => Font::TimesRoman,
+                    "Courier" => Font::Courier,
+                    "Helvetica-Bold" => Font::HelveticaBold,
+                    _ => Font::Helvetica,
+                };
+                let size = b["s"].as_f64().unwrap_or(10.0);
                 for line in b["p"].as_array().unwrap() {
                     y -= 13.0;
-                    page.text().set_font(Font::Helvetica, 10.0).at(60.0, y).write(line.as_str().unwrap()).map_err(|e| format!("{e:?}"))?;
+                    page.text().set_font(font.clone(), size).at(60.0, y).write(line.as_str().unwrap()).map_err(|e| format!("{e:?}"))?;
                 }
                 y -= 22.0;
             }
